@@ -1394,13 +1394,21 @@ class Workflow(Trellis):
     #
 
     def _find_owning_static_tree(self, path: str) -> StaticTree | None:
-        """Return the static tree that owns `path`, or None if none exists."""
+        """Return the static tree that owns `path`, or None if none exists.
+
+        A tree owns the paths beneath it, i.e. the labels that start with the tree's label,
+        which ends with a separator.
+        This is the same test as the prefix scan in `register_static_tree`,
+        so that a tree and a file are treated alike whichever of the two is declared first.
+        In particular, a file named like the tree itself (`data` versus the tree `data/`)
+        is not beneath the tree.
+        A directory must be given with its trailing separator, as `register_static_tree` does.
+        """
         trees = []
         sql = (
             "SELECT i, label FROM node WHERE kind = 'st' AND NOT detached AND "
             "label = substr(?, 1, length(label))"
         )
-        path = Path(path) / ""
         for i, label in self.db.execute(sql, (path,)):
             trees.append(StaticTree(self, i, label))
         if len(trees) > 1:
@@ -2436,10 +2444,9 @@ class Workflow(Trellis):
             Whether `path` is (inside) a static tree, or a directory that contains a
             static tree or a static file.
         """
-        # A) Inside a static tree, or a static tree root itself.
-        # Appending a separator reproduces _find_owning_static_tree's `Path(path) / ""` exactly.
-        probe = path if path.endswith(os.sep) else path + os.sep
-        if any(probe.startswith(label) for label in tree_labels):
+        # A) Inside a static tree, or a static tree root itself (a directory match `tree/`).
+        # This is the same prefix test as _find_owning_static_tree.
+        if any(path.startswith(label) for label in tree_labels):
             return True
         if not path.endswith(os.sep):
             return False
